@@ -282,13 +282,13 @@ theorem addH_mem (h : Nat) (l : List Nat) : h ∈ addH h l := by
 
 /-! ### preservation -/
 
-theorem hstep_register {w : World} {reg n hint : Nat} (hw : WInv w)
+theorem hstep_register0 {w : World} {reg n hint : Nat} (h0 : Pre0 w.cur w.limit w.maxTip w.cover w.chain w.r)
     (hh : Honest w (.register reg n hint)) (hi : HInv w) :
     HInv (wstep w (.register reg n hint)) := by
   obtain ⟨e1, e2, e3, e4⟩ := register_spec w.cur w.limit reg n hint w.r
   have hk : (wstep w (.register reg n hint)).r.key = w.r.key := by
     simp only [wstep, drainR_key]; exact register_key _ _ _ _ _ _
-  have hlen := hw.1.1.len
+  have hlen := h0.len
   have hbs := below_start (cached := w.r.hint) hh hi.hint_ok
   simp only [wstep] at hk ⊢
   refine ⟨?_, ?_, ?_, ?_, ?_, ?_, ?_⟩
@@ -354,6 +354,10 @@ theorem hstep_register {w : World} {reg n hint : Nat} (hw : WInv w)
     simp only [drainR] at hs
     rw [e1] at hs; cases hs
 
+theorem hstep_register {w : World} {reg n hint : Nat} (hw : WInv w)
+    (hh : Honest w (.register reg n hint)) (hi : HInv w) :
+    HInv (wstep w (.register reg n hint)) := hstep_register0 hw.1.1 hh hi
+
 theorem hstep_cancel {w : World} {reg : Nat} (hi : HInv w) : HInv (wstep w (.cancel reg)) := by
   obtain ⟨c1, c2, c3, c4⟩ := cancel_fields w.r reg
   have hk : (w.r.cancel reg).key = w.r.key := cancel_key _ _
@@ -372,13 +376,13 @@ theorem coverAfter_le (cover : Nat) (r : Option (Nat × Nat)) : coverAfter cover
   · split <;> omega
   · omega
 
-theorem hstep_update {w : World} {d : Option ConfDetails} (hw : WInv w) (hok : Ok w (.update d))
+theorem hstep_update0 {w : World} {d : Option ConfDetails} (h0 : Pre0 w.cur w.limit w.maxTip w.cover w.chain w.r) (hok : Ok w (.update d))
     (hi : HInv w) : HInv (wstep w (.update d)) := by
   obtain ⟨a, b0, hr, hok⟩ := hok
   obtain ⟨e1, e2⟩ := update_spec w.cur w.limit d w.r
   have hk : (w.r.update w.cur w.limit d).1.key = w.r.key := update_key _ _ _ _
   have hcl := coverAfter_le w.cover w.range
-  have hlen := hw.1.1.len
+  have hlen := h0.len
   simp only [wstep]
   rcases e2 with ⟨q1, q2, q3, _⟩ | ⟨hs, hd, q1, q⟩
   · -- nothing but `cover` changes
@@ -400,7 +404,7 @@ theorem hstep_update {w : World} {d : Option ConfDetails} (hw : WInv w) (hok : O
         · exact hi.below hs hd a b0 hr h b h1 hlt hb
         · by_cases hle : h ≤ b0
           · exact hok h b (by omega) hle h1 hb
-          · exact hw.1.1.cov hs hd h b (by omega) h1 hb
+          · exact h0.cov hs hd h b (by omega) h1 hb
       refine ⟨by show coverAfter w.cover w.range ≤ w.cur + 1; have := hi.cov_le; omega, ?_, ?_, ?_, ?_, ?_, ?_⟩
       · simp only [drainR_key, hk]; exact hi.lo_ok
       · simp only [drainR_key, hk]
@@ -425,7 +429,7 @@ theorem hstep_update {w : World} {d : Option ConfDetails} (hw : WInv w) (hok : O
         intro v hv h b h1 hb hhas
         simp only [Option.some.injEq] at hv
         obtain ⟨bd, hbd, hbdhas⟩ := hon.has
-        have := hw.1.1.valid (h - 1) (x.height - 1) b bd hb hbd hhas hbdhas
+        have := h0.valid (h - 1) (x.height - 1) b bd hb hbd hhas hbdhas
         have := hon.le
         omega
       · simp only [drainR, qd]
@@ -437,6 +441,10 @@ theorem hstep_update {w : World} {d : Option ConfDetails} (hw : WInv w) (hok : O
         intro _ _ hx'; cases hx'
       · simp only [drainR, e1]
         intro hs'; rw [hs] at hs'; cases hs'
+
+theorem hstep_update {w : World} {d : Option ConfDetails} (hw : WInv w) (hok : Ok w (.update d))
+    (hi : HInv w) : HInv (wstep w (.update d)) := hstep_update0 hw.1.1 hok hi
+
 
 theorem hstep_untip {w : World} (hw : WInv w) (hok : Ok w .untip) (hi : HInv w) :
     HInv (wstep w .untip) := by
